@@ -183,6 +183,35 @@ def marketOps (b : Band) (h : Int) (assets : List (Nat × Bool)) (id : Nat) : Li
     else []
   else if assets.any (fun a => a.1 = id) then [Op.deactivate] else []
 
+/-! ## Consumers of a price (last clause of C17)
+
+Every production reader of a window, by what makes it hand out a value. `listed`: the asset exists in x/asset. -/
+inductive Reader where
+  | calc           -- x/market/keeper/oracle.go CalcAssetPrice (vault, lend, liquidation, auction value assets through it)
+  | latest         -- x/market/keeper/oracle.go GetLatestPrice (no production caller)
+  | vaultRatio     -- x/vault/keeper/vault.go CalculateCollateralizationRatio → CalcAssetPrice (fixed-price debt side)
+  | rewardsOracle  -- x/rewards/keeper/gauge.go OraclePrice: `!found || !price.IsPriceActive ⇒ false`
+  | liqCalc        -- x/liquidity/keeper/rewards.go CalcAssetPrice: `found && twa.Twa > 0`
+  | liqOracle      -- x/liquidity/keeper/rewards.go OraclePrice: refuses only `!IsPriceActive && Twa <= 0`
+  | rewardsPrice   -- x/rewards/keeper/iter.go OraclePriceForRewards: refuses only `!IsPriceActive && Twa <= 0`
+  deriving Repr, DecidableEq
+
+/-- readers that test the activity flag -/
+def Reader.strict : Reader → Bool
+  | .calc | .latest | .vaultRatio | .rewardsOracle => true
+  | _ => false
+
+/-- does the reader hand out a value for this stored window -/
+def Reader.answers (r : Reader) (s : Option Rec) (listed : Bool) : Bool :=
+  match s with
+  | none => false
+  | some w =>
+    match r with
+    | .latest => w.active
+    | .calc | .vaultRatio | .rewardsOracle => listed && w.active
+    | .liqCalc => listed && decide (w.twa > 0)
+    | .liqOracle | .rewardsPrice => listed && (w.active || decide (w.twa > 0))
+
 /-- one chain op seen from the window of asset `id` -/
 def projectOp (id : Nat) (c : Chain) : ChainOp → List COp
   | .configure cfg _ => [COp.reconfigure cfg]
